@@ -86,4 +86,7 @@ Proof. vm_compute. repeat split; reflexivity. Qed.
 Lemma levels_inhabited : forallb (fun p => existsb (fun z => is_binop z && Z.eqb (prec z) p) (zrange 0 128)) [1;2;3;4;5] = true.
 Proof. vm_compute. reflexivity. Qed.
 
+Lemma arrow_prec : prec (tok_op xgo_DRARROW) = 0.
+Proof. vm_compute. reflexivity. Qed.
+
 Global Opaque prec.
